@@ -161,7 +161,7 @@ fn explore(ctx: &Ctx, p: &Params, alphabet: &[(String, RawOp)], depth: usize, la
 
 pub fn run(tier: Tier) -> i32 {
     let ctx = Ctx::new("C14", "model_checking", tier);
-    let depth = tier.pick(6usize, 10usize);
+    let depth = tier.pick(7usize, 10usize);
     ctx.set_rule(&format!("E2: breadth-first search over call histories (depth <= {}) of a real raw::LzmaDecoder (3 parameter sets) and raw::Lzma2Decoder; operations: decompress(s) for s in an alphabet of streams whose result depends on leftover rep distances, automaton state, length coders or literal tables (streams starting with a short rep / rep2 / a matched literal, streams with other lc/lp/pb, chunks that inherit state), truncated / corrupt / size-mismatched streams, reset(None), reset(Some(size)) for 3 sizes. States are merged on a 128-bit fingerprint of every field of the decoder. Oracle on every decompress edge that directly follows a reset: verdict, output and bytes consumed equal those of a freshly constructed decoder with the same parameters and size in effect. post_reset_states = distinct decoder states observed right after a reset (1 per size in effect means reset is perfect for ALL follow-ups, not only the alphabet). distinct_nontrivial = reset-then-decompress comparisons made after at least one earlier decompress.", depth));
     ctx.assume("fingerprint hook covers every field of DecoderState / LzmaDecoder (hook lists them by name)");
     // ---- stream alphabet for the LZMA raw decoder
@@ -294,7 +294,7 @@ pub fn run(tier: Tier) -> i32 {
     // rep distances 0) shows up for the few programs that produce that look
     {
         let t1 = Instant::now();
-        let d = tier.pick(16u32, 21u32);
+        let d = tier.pick(17u32, 21u32);
         let total: u64 = (1u64 << (d + 1)) - 2; // programs of length 1..=d over a 2-letter alphabet
         let probe: Vec<Sym> = {
             let mut v: Vec<Sym> = (0..6u32).map(|i| Sym::L(0x61 + i as u8 * 5)).collect();
